@@ -143,6 +143,47 @@ strlist_const("todo_identifiers", "pkg/application/todo/astitodo/astitodo.go",
 str_const("todo_assign_regexp", "pkg/application/todo/astitodo/astitodo.go",
           r'assignRegStr\s*=\s*"((?:[^"\\\n]|\\.)*)"', "assignee expression, as written in the Go source (escapes not decoded)")
 
+# ---- unused-import removal (C06): which repairs of fixes/unused-*.diff the sources carry.
+# Each switch is decided by two patterns of which exactly one must be present (fails closed).
+def bool_switch(coq_name, checks, doc):
+    """checks: [(rel, pattern_when_false, pattern_when_true)]; all must agree"""
+    votes = []
+    for rel, pf, pt in checks:
+        try:
+            src = read(rel)
+        except OSError as e:
+            errors.append(f"{coq_name}: cannot read {rel}: {e}"); return
+        a = re.search(pf, src, re.M) is not None
+        b = re.search(pt, src, re.M) is not None
+        if a == b:
+            errors.append(f"{coq_name}: {rel}: expected exactly one of {pf!r} / {pt!r} (found {'both' if a else 'neither'})"); return
+        votes.append(b)
+    if len(set(votes)) != 1:
+        errors.append(f"{coq_name}: the sources disagree ({votes}) -- the repair is only half applied"); return
+    defs.append(f"(* {', '.join(c[0] for c in checks)}: {doc} *)\nDefinition {coq_name} : bool := {'true' if votes[0] else 'false'}.")
+
+_UI = "pkg/application/refactor/unused/remove_unused_import.go"
+_UL = "pkg/application/refactor/base/java_refactor_listener.go"
+_UM = "pkg/application/refactor/base/models/jfull_identifier.go"
+bool_switch("unused_fix_perfile",
+            [(_UI, r"removeImportByLines\(currentFile, errorLines\)", r"removeImportByLines\(node\.FilePath, errorLines\)"),
+             (_UM, r"^var fields = make\(map\[string\]JField\)", r"^\tfields\s+map\[string\]JField$")],
+            "the tables and the path of a file are members of its JFullIdentifier (else package-level)")
+bool_switch("unused_fix_lines",
+            [(_UI, r"^\treturn errorLines$", r"^\treturn removableLines\(errorLines, usedLines\)$")],
+            "BuildErrorLines returns each line once and no line holding an import in use")
+bool_switch("unused_fix_wildcard",
+            [(_UI, r'field\.Name == lastField \|\| lastField == "\*"', r'isOk = lastField == "\*"')],
+            "the wildcard test of BuildErrorLines is outside the loop over the referenced names")
+bool_switch("unused_fix_decl",
+            [(_UL, r"\A(?![\s\S]*func \(s \*JavaRefactorListener\) EnterEnumDeclaration)[\s\S]*func \(s \*JavaRefactorListener\) EnterClassDeclaration",
+              r"func \(s \*JavaRefactorListener\) EnterEnumDeclaration[\s\S]*func \(s \*JavaRefactorListener\) EnterAnnotationTypeDeclaration")],
+            "enum and annotation type declarations name the node")
+bool_switch("unused_fix_primary",
+            [(_UL, r"\A(?![\s\S]*func \(s \*JavaRefactorListener\) EnterPrimary)[\s\S]*func isUppercaseText",
+              r"func \(s \*JavaRefactorListener\) EnterPrimary\(")],
+            "a bare identifier (primary) is recorded as a referenced name")
+
 import json as _json
 if not errors:
     _m = re.search(r"historyArgs := \[\]string\{(.*?)\}\s*$", read("cmd/git.go"), re.M | re.S)
